@@ -8,15 +8,19 @@ namespace DoitModel.Run
 inductive CalcOf (inp : RunInput) (n : Name) : Name → Prop
   | base {c} : c ∈ inp.calcDep n → CalcOf inp n c
   | res {p c} : CalcOf inp n p → c ∈ (inp.calcRes p).calcs → CalcOf inp n c
+  | resFail {p c} : CalcOf inp n p → c ∈ (inp.calcResFail p).calcs → CalcOf inp n c   -- delivered although `p` failed
 
 /-- `n` depends on `d`: task_dep (after expansion: implicit target->file_dep, result_dep …), calc_dep, setup-task, or
-    a task_dep / file_dep owner delivered by one of its (possibly delivered) calc_deps -/
+    a task_dep / file_dep owner delivered by one of its (possibly delivered) calc_deps — also what such a calc_dep
+    returned before its execution failed (`deliverF`: `_process_calc_dep_results` reads `task.values` of failed tasks too) -/
 inductive Dep (inp : RunInput) : Name → Name → Prop
   | task {n d} : d ∈ inp.taskDep n → Dep inp n d
   | ofCalc {n c} : CalcOf inp n c → Dep inp n c
   | setup {n d} : d ∈ inp.setup n → Dep inp n d
   | resT {n p d} : CalcOf inp n p → d ∈ (inp.calcRes p).tasks → Dep inp n d
   | resF {n p d} : CalcOf inp n p → d ∈ (inp.calcRes p).files → Dep inp n d
+  | resTFail {n p d} : CalcOf inp n p → d ∈ (inp.calcResFail p).tasks → Dep inp n d
+  | resFFail {n p d} : CalcOf inp n p → d ∈ (inp.calcResFail p).files → Dep inp n d
 
 /-- `rank` decreases along every dependency edge -/
 def Ranked (inp : RunInput) (rank : Name → Nat) : Prop := ∀ n d, Dep inp n d → rank d < rank n
@@ -58,18 +62,19 @@ theorem mkNode_ndep {t : Name} {anc : List Name} (ha : ∀ a ∈ anc, rank t ≤
   · intro d hd; simp [mkNode] at hd
   · intro d hd; simp [mkNode] at hd
 
-theorem addDeps_ndep {n p : Name} {nd : Node} (h : NDep inp rank n nd) (hp : CalcOf inp n p) :
-    NDep inp rank n (nd.addDeps (inp.calcRes p)) := by
-  have nt : ∀ d ∈ newTaskDeps nd (inp.calcRes p), Dep inp n d := by
+theorem addDeps_ndepR {n : Name} {nd : Node} {r : CalcRes} (h : NDep inp rank n nd)
+    (ht : ∀ d ∈ r.tasks, Dep inp n d) (hf : ∀ d ∈ r.files, Dep inp n d) (hc : ∀ d ∈ r.calcs, CalcOf inp n d) :
+    NDep inp rank n (nd.addDeps r) := by
+  have nt : ∀ d ∈ newTaskDeps nd r, Dep inp n d := by
     intro d hd
     simp only [newTaskDeps, List.mem_append] at hd
     rcases hd with a | a
-    · exact Dep.resT hp a
-    · exact Dep.resF hp (implicitNew_mem a)
-  have nc : ∀ d ∈ newCalcDeps nd (inp.calcRes p), CalcOf inp n d := by
+    · exact ht d a
+    · exact hf d (implicitNew_mem a)
+  have nc : ∀ d ∈ newCalcDeps nd r, CalcOf inp n d := by
     intro d hd
     simp only [newCalcDeps, List.mem_filter] at hd
-    exact CalcOf.res hp (mem_dedup.mp hd.1)
+    exact hc d (mem_dedup.mp hd.1)
   refine ⟨h.anc, ?_, ?_, ?_, ?_, h.st, h.sc, h.wr, h.wc, h.pcl⟩
   · intro d hd; simp only [Node.addDeps, List.mem_append] at hd
     rcases hd with a | a
@@ -87,6 +92,16 @@ theorem addDeps_ndep {n p : Name} {nd : Node} (h : NDep inp rank n nd) (hp : Cal
     rcases hd with a | a
     · exact h.pcalc d a
     · exact nc d a.1
+
+theorem addDeps_ndep {n p : Name} {nd : Node} (h : NDep inp rank n nd) (hp : CalcOf inp n p) :
+    NDep inp rank n (nd.addDeps (inp.calcRes p)) :=
+  addDeps_ndepR h (fun _ a => Dep.resT hp a) (fun _ a => Dep.resF hp a) (fun _ a => CalcOf.res hp a)
+
+theorem deliverF_ndep {n p : Name} {nd : Node} (ex : Bool) (pst : RS) (h : NDep inp rank n nd) (hp : CalcOf inp n p) :
+    NDep inp rank n (deliverF inp ex pst p nd) := by
+  unfold deliverF; split
+  · exact addDeps_ndepR h (fun _ a => Dep.resTFail hp a) (fun _ a => Dep.resFFail hp a) (fun _ a => CalcOf.resFail hp a)
+  · exact h
 
 theorem deliver_ndep {n p : Name} {nd : Node} (pst : RS) (h : NDep inp rank n nd) (hp : CalcOf inp n p) :
     NDep inp rank n (deliver inp pst p nd) := by
@@ -112,7 +127,7 @@ theorem absorbDone_ndep {s : Sys} {n : Name} (isCalc : Bool) :
     · apply ih _ _ (fun e d hd => hds e d (by simp [hd]))
       split
       · rename_i hc
-        exact deliver_ndep _ (parentStatus_ndep _ _ h) (hds hc a (by simp))
+        exact deliverF_ndep _ _ (deliver_ndep _ (parentStatus_ndep _ _ h) (hds hc a (by simp))) (hds hc a (by simp))
       · exact parentStatus_ndep _ _ h
 
 theorem waitNode_ndep {s : Sys} {n : Name} {nd : Node} (ds : List Name) (isCalc : Bool) (pc' : PC)
@@ -150,6 +165,13 @@ theorem wokenNode_ndep {n : Name} {nd : Node} (pst : RS) (p : Name) (h : NDep in
     · intro d hd; exact h.wc d (List.mem_filter.mp hd).1
   · refine ⟨h.anc, h.dt, h.dc, h.pt, h.pcalc, h.st, h.sc, ?_, h.wc, h.pcl⟩
     intro d hd; exact h.wr d (List.mem_filter.mp hd).1
+
+theorem wokenF_ndep {n : Name} {nd : Node} (s : Sys) (pst : RS) (p : Name) (h : NDep inp rank n nd) :
+    NDep inp rank n (wokenF inp s pst p nd) := by
+  unfold wokenF; split
+  · rename_i hp
+    exact deliverF_ndep _ _ (wokenNode_ndep pst p h) (h.wc p hp)
+  · exact wokenNode_ndep pst p h
 
 theorem addWaiting_ndep {n : Name} {nd : Node} (m : Name) (h : NDep inp rank n nd) :
     NDep inp rank n (nd.addWaiting m) := by
@@ -302,7 +324,7 @@ theorem dtick_allN {s s' : Sys} {perm : List Name} (hr : Ranked inp rank) (h : A
 
 theorem wakeOne_allN {s : Sys} {pst : RS} {p w : Name} {nd : Node} (h : AllN inp rank s)
     (hw : s.nodes w = some nd) : AllN inp rank (wakeOne inp s pst p w nd) := by
-  have := allN_setNode h (wokenNode_ndep pst p (h w nd hw))
+  have := allN_setNode h (wokenF_ndep s pst p (h w nd hw))
   unfold wakeOne; split
   · exact allN_congr this rfl
   · exact this
